@@ -73,6 +73,9 @@ package parser
 //@   requires nonnil: p != nil
 //@   requires iv: len(AESIv) == 16 || (len(AESKey) != 16 && len(AESKey) != 24 && len(AESKey) != 32)
 //@   modifies p.buffer
+// the unread rest of the buffer - all of it, nothing else - is run through the cipher with the given key and IV, and replaces it
+//@   guard-call whole: "XCryptBytesAES256" sameslice(arg(0), p.buffer) && sameslice(arg(1), AESKey) && sameslice(arg(2), AESIv)
+//@   ensures-local replaced: sameslice(p.buffer, lastresult(XCryptBytesAES256))
 
 // The two string readers consume exactly one length-prefixed field (like ParseBytes) and turn
 // that field's bytes - all of them, nothing else - into the string (decoded resp. converted, NULs stripped).
